@@ -6,6 +6,16 @@ ROOT = "/verif"
 
 # id -> (engine, category, technique, level text, level note, design ref)
 CHECKS = {
+    "C19": ("enum", "model_checking",
+            "explicit exploration of every operation sequence (get/take_binary) up to depth 4/5 on every frame of a bounded family built by the real parser, all observers and all next/next_back iteration patterns compared with a Vec-based model after every step (no state merging)",
+            "242 frames (all key sequences of length 0..4 over {a, A, b}, with/without binary) x every sequence of <=4/5 operations from {get(a), get(A), get(b), get(missing), take_binary}; after every step find/fields_len/is_empty/has_binary/binary/clone and fields(), &frame, into_iter() under every front/back pattern incl. IntoIter::take_binary; responses with 0..3 frames +- error under every front/back pattern with exact size hints, successful_frames, is_error, into_single_frame.",
+            "Trusted: the Vec<Option<(key,value)>> + Option<binary> model.",
+            "DESIGN.md sections 3.3, 4 C19"),
+    "C20": ("enum", "model_checking",
+            "complete enumeration of the finite domain: all ordered pairs of tag / subsystem values (named variants vs. catch-all in 4 letter cases), all candidate tag strings, all subsystem names sent through the real client",
+            "All ordered pairs over 157 tag values and 71 subsystem values: == iff names equal, cmp = string order of names, equal implies equal Hash under two hashers and interchangeability as HashMap/BTreeMap/HashSet key; Tag::try_from on every candidate string accepts exactly non-empty letters/_/-, maps known names case-insensitively and round-trips; every subsystem name (14 + unknown + wrong-case) delivered as an event carries that name.",
+            "Trusted: the two name tables written from the MPD protocol reference.",
+            "DESIGN.md section 4 C20"),
     "C07": ("enum", "model_checking",
             "bounded-exhaustive enumeration of command names, argument values of every Argument kind (incl. user-defined renderers) and all sequences of <=4/5 accepted/rejected add_argument calls; differential oracle (command == command built from the accepted calls alone)",
             "All names of length <=3/4 over 14 byte classes plus every string within edit distance 1 / prefix / extension of the three list keywords; every argument string of length <=3/4 over 12 classes with LF at every position through &str/String/Cow, integer/bool/Duration values and user-defined renderers emitting every byte string of length <=3/4 over 6 bytes; every sequence of <=4/5 add_argument calls over a menu of 4 accepted and 4 rejected values: acceptance implies a legal name / no LF, rejection leaves the command == its clone, one LF per sent command, N+2 lines per list.",
